@@ -603,8 +603,15 @@ class SegmentationImage:
             numbers.
         """
         # child_labels are the deblended labels
+        deblend_label_map = {}
         for parent_label, child_labels in self._deblend_label_map.items():
-            self._deblend_label_map[parent_label] = relabel_map[child_labels]
+            child_labels = relabel_map[child_labels]
+            # child labels that were removed (relabeled to zero) are no
+            # longer in the segmentation array
+            child_labels = child_labels[child_labels != 0]
+            if len(child_labels) > 0:
+                deblend_label_map[parent_label] = child_labels
+        self._deblend_label_map = deblend_label_map
 
     def reassign_label(self, label, new_label, relabel=False):
         """
